@@ -1134,6 +1134,8 @@ class World:
             if self.master is None:
                 return
             before = self.placement_digest()
+            # (forced: the probe needs a cycle that changes nothing; whether
+            # the master notices the NEW instance by itself is left to it)
             self.master.up_to_date = False
             self.op_master_cycle({})
             if self.master is None or self.violation is not None:
@@ -1143,6 +1145,8 @@ class World:
             if not self.queue and self.placement_digest() == before:
                 quiet = True
                 break
+        if quiet and self.master.cell.next_event_at < self.clock.peek() + 5.0:
+            quiet = False             # something is about to expire
         blacklist = self._zk_obj(z.BLACKEDOUT_APPS)
         if not quiet or blacklist:
             self.probes['probe_not_quiescent'] = \
